@@ -1,7 +1,7 @@
 """Sidecar contracts for esr/generation/generator.py."""
 import z3
 from pyvc.engine import Contract, LoopSpec
-from pyvc.values import T, VInt, VFloat, VLabel, VRef, HSeq, Label, Unsupported, fresh_name, LN
+from pyvc.values import T, VInt, VFloat, VLabel, VRef, VConc, HSeq, Label, Unsupported, fresh_name, LN
 from pyvc import models as M
 
 
@@ -150,3 +150,234 @@ def node_to_string_contract():
                  returns=returns, raises=lambda S, a, e: z3.BoolVal(False))
     c.decreases = lambda S, a: N - (a["idx"].t if not isinstance(a["idx"], VMaybeNone) else a["idx"].val.t)
     return c
+
+
+# ----------------------------------------------------------------------------------- check_tree (C01)
+import ast as _ast
+
+
+def check_tree_contract():
+    """success <=> valid(s), where valid is the Lukasiewicz condition on the arity string:
+         NEED(0) = 1, NEED(k+1) = NEED(k) + s[k] - 1;  valid(s) <=> (forall k < n. NEED(k) >= 1) and NEED(n) = 0.
+    On success the pointer structure makes every non-leaf node point to existing later nodes (left[k] = k+1, k < right[k] < n),
+    which is the precondition of node_to_string.  Proof: outer invariant with a ghost stack of the binary nodes whose right
+    child is missing (strictly increasing; exactly the open nodes; every later node has its parent at or above each open
+    node), NEED(i+1) = s[i] + len(stack); inner invariant of the walk up the parent chain: j stays at or above the top of the
+    stack, and the tree is unchanged until the walk succeeds."""
+    from pyvc.values import VNone, VMaybeNone, HRec, VRecRef, ite
+    from pyvc.engine import LoopSpec
+    NEED = z3.Function("NEED", z3.IntSort(), z3.IntSort())
+    NODE_T = T("recseq", "Node", (("left", T.opt(T.int)), ("parent", T.opt(T.int)), ("right", T.opt(T.int)), ("type", T.int)))
+    GT = T("ghostfn", z3.IntSort(), z3.IntSort())
+
+    def fld(S, name, k):
+        o = S.st.heap[S.var("tree").addr]
+        v = o.fields[name](k)
+        if isinstance(v, VNone):
+            return z3.BoolVal(True), z3.IntVal(0)
+        if isinstance(v, VMaybeNone):
+            return v.isnone, v.val.t
+        return z3.BoolVal(False), v.t
+
+    def sarr(S):
+        return S.seq(S.eng.args0["s"])
+
+    def pats(*terms):
+        """explicit triggers: every non-constant application among the given terms is an alternative pattern"""
+        out = []
+        for t in terms:
+            if z3.is_app(t) and t.num_args() > 0 and t.decl().kind() == z3.Z3_OP_UNINTERPRETED:
+                out.append(t)
+        return out
+
+    def fterms(obj, name, kk):
+        v = obj.fields[name](kk)
+        if isinstance(v, VMaybeNone):
+            return [v.isnone, v.val.t]
+        if isinstance(v, VInt):
+            return [v.t]
+        return []
+
+    def need_unfold(S, k):
+        s = sarr(S)
+        return NEED(k + 1) == NEED(k) + s.get(k).t - 1
+
+    def requires(S, a):
+        s = S.seq(a["s"])
+        k = z3.Int("k!rq")
+        return [("n >= 1", s.len >= 1),
+                ("arities are 0, 1 or 2", z3.ForAll([k], z3.Implies(z3.And(0 <= k, k < s.len), z3.And(s.get(k).t >= 0, s.get(k).t <= 2)))),
+                ("a string of more than one node does not start with a leaf; a single node is a leaf",
+                 z3.And(z3.Implies(s.len > 1, s.get(z3.IntVal(0)).t != 0), z3.Implies(s.len == 1, s.get(z3.IntVal(0)).t == 0)))]
+
+    def setup(eng, st, args):
+        eng.axioms.append(NEED(z3.IntVal(0)) == 1)
+        st.env["__stk"] = eng.mk_list([], st)
+        st.heap[st.env["__stk"].addr] = HSeq(0, lambda k: VInt(0), etype=T.int)
+        st.env["__pos"] = eng.fresh(GT, "POSN", st)
+
+    def stack(S):
+        return S.seq(S.var("__stk"))
+
+    def common(S, st, i):
+        """facts of the outer invariant for `i` placed nodes 0..i (node i's children still pending)"""
+        s = sarr(S)
+        n = s.len
+        stk = stack(S)
+        POS = S.var("__pos").obj
+        k, q, q2 = z3.Int("k!ct"), z3.Int("q!ct"), z3.Int("q2!ct")
+        ty = lambda kk: fld(S, "type", kk)[1]
+        pn, pv = (lambda kk: fld(S, "parent", kk)[0]), (lambda kk: fld(S, "parent", kk)[1])
+        ln, lv = (lambda kk: fld(S, "left", kk)[0]), (lambda kk: fld(S, "left", kk)[1])
+        rn, rv = (lambda kk: fld(S, "right", kk)[0]), (lambda kk: fld(S, "right", kk)[1])
+        inr = lambda kk: z3.And(0 <= kk, kk < n)
+        top = stk.get(stk.len - 1).t
+        return [
+            ("tree has one node per arity and node types are the arities", z3.And(S.st.heap[S.var("tree").addr].len == n,
+                                                                               z3.ForAll([k], z3.Implies(inr(k), ty(k) == s.get(k).t), patterns=pats(ty(k), s.get(k).t)))),
+            ("parents: the root has none, placed nodes have an earlier parent, unplaced nodes none",
+             z3.ForAll([k], z3.Implies(inr(k), z3.And(z3.Implies(z3.Or(k == 0, k > i), pn(k)),
+                                                      z3.Implies(z3.And(1 <= k, k <= i), z3.And(z3.Not(pn(k)), 0 <= pv(k), pv(k) < k)))),
+                       patterns=pats(pn(k), pv(k)))),
+            ("left children: processed non-leaf nodes point to their successor, all others have none",
+             z3.ForAll([k], z3.Implies(inr(k), z3.And(z3.Implies(z3.And(k < i, s.get(k).t >= 1), z3.And(z3.Not(ln(k)), lv(k) == k + 1)),
+                                                      z3.Implies(z3.Or(k >= i, s.get(k).t == 0), ln(k)))), patterns=pats(ln(k), lv(k)))),
+            ("right children exist only on processed binary nodes and point to a later placed node",
+             z3.ForAll([k], z3.Implies(z3.And(inr(k), z3.Not(rn(k))), z3.And(s.get(k).t == 2, k < i, k < rv(k), rv(k) <= i)), patterns=pats(rn(k), rv(k)))),
+            ("ghost stack: strictly increasing list of processed binary nodes without a right child",
+             z3.And(stk.len >= 0,
+                    z3.ForAll([q], z3.Implies(z3.And(0 <= q, q < stk.len), z3.And(0 <= stk.get(q).t, stk.get(q).t < i, s.get(stk.get(q).t).t == 2,
+                                                                                     rn(stk.get(q).t), POS(stk.get(q).t) == q)), patterns=pats(stk.get(q).t)),
+                    z3.ForAll([q, q2], z3.Implies(z3.And(0 <= q, q < q2, q2 < stk.len), stk.get(q).t < stk.get(q2).t),
+                              patterns=[z3.MultiPattern(stk.get(q).t, stk.get(q2).t)] if pats(stk.get(q).t) else []))),
+            ("every processed binary node without a right child is on the stack",
+             z3.ForAll([k], z3.Implies(z3.And(0 <= k, k < i, s.get(k).t == 2, rn(k)), z3.And(0 <= POS(k), POS(k) < stk.len, stk.get(POS(k)).t == k)),
+                       patterns=pats(rn(k), POS(k)))),
+            ("every node placed after an open node has its parent at or above that open node",
+             z3.ForAll([q, k], z3.Implies(z3.And(0 <= q, q < stk.len, stk.get(q).t < k, k <= i), pv(k) >= stk.get(q).t),
+                       patterns=[z3.MultiPattern(stk.get(q).t, pv(k))] if (pats(stk.get(q).t) and pats(pv(k))) else [])),
+            ("NEED(i+1) = s[i] + number of open nodes", NEED(i + 1) == s.get(i).t + stk.len),
+            ("all prefixes so far are viable: NEED(k) >= 1 for k <= i", z3.ForAll([k], z3.Implies(z3.And(0 <= k, k <= i), NEED(k) >= 1))),
+        ]
+
+    def outer_inv(S, st):
+        s = sarr(S)
+        n = s.len
+        i = S.i(S.var("__i"))
+        st.assume(z3.Implies(z3.And(0 <= i, i < n), need_unfold(S, i)))
+        st.assume(z3.Implies(z3.And(0 <= i, i + 1 < n), need_unfold(S, i + 1)))
+        out = [("0 <= i <= n - 1", z3.And(0 <= i, i <= n - 1))]
+        if "success" in st.env:
+            out.append(("the previous iteration succeeded", z3.Implies(i >= 1, S.b(S.var("success")))))
+        else:
+            out.append(("no iteration has run yet", i == 0))
+        return out + common(S, st, i)
+
+    def inner_inv(S, st):
+        """walk up the parent chain in iteration i (node i is a leaf): until it succeeds nothing changes"""
+        s = sarr(S)
+        n = s.len
+        i = S.i(S.var("i"))
+        pre = st.ghost.get("pre_while")
+        if pre is None:
+            raise Unsupported("the walk-up loop is not preceded by `j = tree[i].parent`")
+        tree0, stk0 = pre
+        succ = S.b(S.var("success"))
+        jv = S.var("j")
+        jn, jt = (jv.isnone, jv.val.t) if isinstance(jv, VMaybeNone) else ((z3.BoolVal(True), z3.IntVal(0)) if isinstance(jv, VNone) else (z3.BoolVal(False), jv.t))
+        stk = stack(S)
+        k, q = z3.Int("k!wi"), z3.Int("q!wi")
+        top0 = stk0.get(stk0.len - 1).t
+        cur = S.st.heap[S.var("tree").addr]
+
+        def same(name, kk, upd=None):
+            a_ = fld(S, name, kk)
+            v0 = tree0.fields[name](kk)
+            b_ = (z3.BoolVal(True), z3.IntVal(0)) if isinstance(v0, VNone) else ((v0.isnone, v0.val.t) if isinstance(v0, VMaybeNone) else (z3.BoolVal(False), v0.t))
+            return z3.And(a_[0] == b_[0], z3.Implies(z3.Not(a_[0]), a_[1] == b_[1]))
+        unchanged = z3.And(cur.len == tree0.len,
+                           z3.ForAll([k], z3.Implies(z3.And(0 <= k, k < n), z3.And(same("type", k), same("parent", k), same("left", k), same("right", k))),
+                                     patterns=pats(*(fterms(cur, "type", k) + fterms(cur, "parent", k) + fterms(cur, "left", k) + fterms(cur, "right", k)))),
+                           stk.len == stk0.len, z3.ForAll([q], z3.Implies(z3.And(0 <= q, q < stk0.len), stk.get(q).t == stk0.get(q).t), patterns=pats(stk.get(q).t)))
+        done = z3.And(cur.len == tree0.len, stk0.len >= 1,
+                      z3.ForAll([k], z3.Implies(z3.And(0 <= k, k < n), z3.And(
+                          same("type", k), same("left", k),
+                          z3.If(k == i + 1, z3.And(z3.Not(fld(S, "parent", k)[0]), fld(S, "parent", k)[1] == top0), same("parent", k)),
+                          z3.If(k == top0, z3.And(z3.Not(fld(S, "right", k)[0]), fld(S, "right", k)[1] == i + 1), same("right", k)))),
+                                patterns=pats(*(fterms(cur, "type", k) + fterms(cur, "parent", k) + fterms(cur, "left", k) + fterms(cur, "right", k)))),
+                      stk.len == stk0.len - 1, z3.ForAll([q], z3.Implies(z3.And(0 <= q, q < stk0.len - 1), stk.get(q).t == stk0.get(q).t), patterns=pats(stk.get(q).t)))
+        return [("until the walk succeeds the tree and the stack are unchanged, and j is a node at or above the top open node",
+                 z3.Implies(z3.Not(succ), z3.And(unchanged, z3.Not(jn), 0 <= jt, jt < i, z3.Implies(stk0.len >= 1, jt >= top0)))),
+                ("when the walk has succeeded, exactly the top open node got node i+1 as its right child and was popped",
+                 z3.Implies(succ, done))]
+
+    def inner_dec(S, st):
+        jv = S.var("j")
+        succ = S.b(S.var("success"))
+        jt = jv.val.t if isinstance(jv, VMaybeNone) else (jv.t if isinstance(jv, VInt) else z3.IntVal(0))
+        return z3.If(succ, 0, jt + 1)
+
+    def hook_j(S, st, node):
+        # `j = tree[i].parent` directly before the walk: snapshot of the tree and the stack
+        v = getattr(node, "value", None)
+        first = isinstance(v, _ast.Attribute) and isinstance(v.value, _ast.Subscript) and isinstance(v.value.slice, _ast.Name) and v.value.slice.id == "i"
+        if isinstance(node, ast_Assign) and "i" in st.env and first:
+            st.ghost = dict(st.ghost)
+            st.ghost["pre_while"] = (st.heap[S.var("tree").addr], st.heap[S.var("__stk").addr])
+
+    def hook_left(S, st, node):
+        # tree[i].left = i+1 : a binary node i becomes open -> push
+        s = sarr(S)
+        i = S.i(S.var("i"))
+        stk = stack(S)
+        L, g = stk.len, stk.get
+        isbin = s.get(i).t == 2
+        st.heap[S.var("__stk").addr] = HSeq(z3.If(isbin, L + 1, L), lambda k: ite(z3.And(isbin, k == L), VInt(i), g(k)), etype=T.int)
+        POS = S.var("__pos").obj
+        gg = VConc("ghostfn", lambda q: z3.If(z3.And(isbin, q == i), L, POS(q)))
+        gg.gtype = GT
+        st.env["__pos"] = gg
+
+    def hook_right(S, st, node):
+        # tree[j].right = i+1 : the top open node is closed -> pop
+        stk = stack(S)
+        L, g = stk.len, stk.get
+        st.heap[S.var("__stk").addr] = HSeq(L - 1, g, etype=T.int)
+
+    def ensures(S, a, res):
+        from pyvc.values import VTuple
+        if not (isinstance(res, VTuple) and len(res.items) == 3):
+            raise Unsupported("check_tree no longer returns a triple")
+        s = S.seq(a["s"])
+        n = s.len
+        succ = S.b(res.items[0])
+        k = z3.Int("k!en")
+        valid = z3.And(z3.ForAll([k], z3.Implies(z3.And(0 <= k, k < n), NEED(k) >= 1)), NEED(n) == 0)
+        S.st.assume(z3.Implies(n == 1, need_unfold(S, z3.IntVal(0))))
+        out = [("success => the arity string is valid (every proper prefix needs >= 1 more node, the whole string none)", z3.Implies(succ, valid)),
+               ("the arity string is valid => success", z3.Implies(valid, succ))]
+        tr = S.st.heap[res.items[2].addr]
+
+        def f(name, kk):
+            v = tr.fields[name](kk)
+            if isinstance(v, VNone):
+                return z3.BoolVal(True), z3.IntVal(0)
+            if isinstance(v, VMaybeNone):
+                return v.isnone, v.val.t
+            return z3.BoolVal(False), v.t
+        out.append(("on success every non-leaf node points to existing later nodes (left[k] = k+1, k < right[k] < n) and types are the arities",
+                    z3.Implies(z3.And(succ, n > 1), z3.ForAll([k], z3.Implies(z3.And(0 <= k, k < n), z3.And(
+                        f("type", k)[1] == s.get(k).t,
+                        z3.Implies(s.get(k).t >= 1, z3.And(z3.Not(f("left", k)[0]), f("left", k)[1] == k + 1, k + 1 < n)),
+                        z3.Implies(s.get(k).t == 2, z3.And(z3.Not(f("right", k)[0]), k < f("right", k)[1], f("right", k)[1] < n))))))))
+        return out
+
+    global ast_Assign
+    ast_Assign = _ast.Assign
+    lo = LoopSpec(outer_inv, havoc_types={"tree": NODE_T, "j": T.opt(T.int), "success": T.bool})
+    lo.ghost = ["__stk", "__pos"]
+    li = LoopSpec(inner_inv, havoc_types={"tree": NODE_T, "j": T.opt(T.int)}, decreases=inner_dec)
+    li.ghost = ["__stk"]
+    return Contract("check_tree", {"s": T.arr(T.int)}, requires=requires, ensures=ensures, setup=setup,
+                    loops={0: lo, 1: li}, hooks={"j": hook_j, "tree[].left": hook_left, "tree[].right": hook_right},
+                    raises=lambda S, a, e: z3.BoolVal(False))
